@@ -48,7 +48,7 @@ type WReq struct {
 
 // WRes is the observation of one case.
 type WRes struct {
-	Class      string `json:"c"`           // script | error | both | neither | empty-error | panic | unbounded-recursion | skip
+	Class      string `json:"c"`            // script | error | both | neither | empty-error | panic | unbounded-recursion | skip
 	PanicClass string `json:"pc,omitempty"` // class of the runtime error
 	Func       string `json:"fn,omitempty"` // first repository function on the panicking stack
 	PanicMsg   string `json:"pm,omitempty"`
